@@ -36,6 +36,9 @@ type Arg struct {
 	S    Str
 	N    int
 	Hid  int // index in Node.Hid for ArgErr
+	// Verb is the printf verb used for this argument ("" = the default:
+	// %s for strings, %d for integers, %v for errors).
+	Verb string
 }
 
 // Tag is one context tag.
@@ -199,13 +202,13 @@ func (n *Node) Expr() string {
 		for _, a := range n.A {
 			switch a.Kind {
 			case ArgUnsafeStr:
-				item(fmt.Sprintf("%q", a.S.V))
+				item(fmt.Sprintf("%s%q", a.Verb, a.S.V))
 			case ArgSafeStr:
-				item(fmt.Sprintf("Safe(%q)", a.S.V))
+				item(fmt.Sprintf("%sSafe(%q)", a.Verb, a.S.V))
 			case ArgInt:
-				item(fmt.Sprint(a.N))
+				item(a.Verb + fmt.Sprint(a.N))
 			case ArgErr:
-				item(fmt.Sprintf("err#%d", a.Hid))
+				item(fmt.Sprintf("%serr#%d", a.Verb, a.Hid))
 			}
 		}
 		for _, t := range n.T {
